@@ -32,6 +32,17 @@ def configs(tier, seed):
             seen.add(kk)
             sel.append(c)
         out = sel
+    else:
+        # every (version, cipher family, handshake shape, EtM, key-log label): -a does not depend on which member of a family is used
+        seen, sel = set(), []
+        for c in out:
+            fam = c["suite_name"].split("_WITH_")[-1].split("_")[0]
+            kk = (c["version"], fam, c.get("shape"), c.get("etm", False), c.get("keylog_label"), c.get("seg_size"))
+            if kk in seen:
+                continue
+            seen.add(kk)
+            sel.append(c)
+        out = sel
     # an alert between application records (what follows an alert is outside C01, but -a must not change what is exported)
     for v, code, name in (("TLS12", 0x009c, "TLS_RSA_WITH_AES_128_GCM_SHA256"), ("TLS10", 0x002f, "TLS_RSA_WITH_AES_128_CBC_SHA"), ("TLS11", 0x0005, "TLS_RSA_WITH_RC4_128_SHA")):
         out.append({"harness": "tls-meta", "name": "meta-%s-%04x-alert-then-data" % (v, code), "version": v, "suite": code, "suite_name": name, "records": 3, "max_len": 1,
@@ -52,7 +63,7 @@ def configs(tier, seed):
 def bounds(tier):
     from tlv.harness import c01
     b = c01.bounds(tier)
-    b["note"] = "quick: one suite per (version, handshake shape, EtM); thorough: every C01 pipeline configuration"
+    b["note"] = "quick: one suite per (version, handshake shape, EtM); thorough: one suite per (version, cipher family, handshake shape, EtM, key-log label)"
     return b
 
 
